@@ -24,6 +24,10 @@ class DirectFace(Face):
             self._closed.set_result(True)
 
     def send(self, data: bytes):
+        exc = getattr(self, 'fail_next_send', None)
+        if exc is not None:
+            self.fail_next_send = None          # a transport error on this one send (buffer full, interface gone)
+            raise exc
         self._on_tx(bytes(data))
 
     async def run(self):
